@@ -77,7 +77,7 @@ def check_maps(tn):
         tn.check()
     except Exception as ex:  # noqa
         # sizes are judged by their own contract; everything else tn.check() looks at is a map defect
-        if "Mismatched index dimension" not in str(ex):
+        if "Mismatched index dimension" not in str(ex) and "non-finite" not in str(ex):
             return f"tn.check() raised {type(ex).__name__}: {str(ex)[:200]}"
     return None
 
@@ -90,9 +90,11 @@ def check_inner_outer(tn):
         if len(g) != len(set(g)):
             return f"{nm} lists a label twice"
         if set(g) != ref:
-            bad = sorted(map(str, set(g) ^ ref))[:4]
-            return (f"{nm} differs from the recount on {bad} (occurrences: "
-                    f"{ {str(b): occ.get(b, 0) for b in set(g) ^ ref} })")
+            bad = sorted(set(g) ^ ref, key=str)[:4]
+            items = scan(tn)
+            info = {str(b): dict(occurrences=occ.get(b, 0), tensors=len(imap.get(b, ())),
+                                 twice_on_one_tensor=any(inds.count(b) > 1 for _, _, inds, _ in items)) for b in bad}
+            return f"{nm} differs from the recount on {info}"
     return None
 
 
@@ -568,6 +570,11 @@ class Walker:
                 return None
         else:
             t = self.new_tensor(A)
+        if src != "new" and self.coin(0.15):
+            t = pickle.loads(pickle.dumps(t)) if self.coin() else t.copy()
+            src += "-copied"
+            if t.owners:
+                self.eff.append("a copied / unpickled tensor has owners")
         virtual = self.coin()
         if virtual and any(t is x for x in A.members):
             return None
@@ -600,8 +607,7 @@ class Walker:
             return p
         if virtual:
             self.exp_members[id(A)] = {"exact": mem + [t]}
-            if src == "loose":
-                self.loose = [x for x in self.loose if x is not t]
+            self.loose = [x for x in self.loose if x is not t]
         else:
             self.exp_members[id(A)] = {"keep": mem, "new": 1}
             new = [x for x in A.tn.tensor_map.values() if all(x is not m for m in mem)]
@@ -1257,7 +1263,8 @@ class Walker:
         gtags = [self.choice("ABCDE")] if self.coin() else None
         touched = [t for t, _ in targets]
         inplace = self.coin(0.75)
-        p = dict(op="gate_inds", inplace=inplace, ng=ng, contract=str(contract), inds=self.lns(inds), tags=gtags)
+        p = dict(op="gate_inds", inplace=inplace, ng=ng, contract=str(contract), inds=self.lns(inds), tags=gtags,
+                 receiver_has_label_b=any("b" in t.inds for t in mem))
         if inplace:
             self.exp_members[id(A)] = {"keep": [x for x in mem if all(x is not g for g in touched)], "new": None}
             for t in touched:
@@ -1383,6 +1390,138 @@ class Walker:
                 self.eff.append("mangle_inner_ changed the multiplicity structure of the labels")
         return dict(op="mangle_inner_")
 
+
+    # ------------------------------------------------------------------ tensor-level structural changes through a (shared) tensor
+    def op_tensor_struct(self):
+        t = self.pick_shared_tensor()
+        if t is None or has_rep(t):
+            return None
+        old = tuple(t.inds)
+        tags = frozenset(t.tags)
+        how = self.ri(5)
+        if how == 0:
+            if len(old) >= self.MAX_RANK:
+                return None
+            name, ax = self.fresh(), self.ri(len(old) + 1)
+            size = 1 + self.ri(2)
+            new = old[:ax] + (name,) + old[ax:]
+            self.exp_labels[id(t)] = (new, tags)
+            self.run(lambda: t.new_ind(name, size=size, axis=ax))
+            return dict(op="Tensor.new_ind", axis=ax, size=size)
+        if not old:
+            return None
+        if how == 1:
+            ix = self.choice(old)
+            self.exp_labels[id(t)] = (tuple(i for i in old if i != ix), tags)
+            self.run(lambda: t.sum_reduce_(ix))
+            return dict(op="Tensor.sum_reduce_", ind=self.ln(ix))
+        if how == 2:
+            ix = self.choice(old)
+            k = self.ri(t.ind_size(ix))
+            self.exp_labels[id(t)] = (tuple(i for i in old if i != ix), tags)
+            self.run(lambda: t.isel_({ix: k}))
+            return dict(op="Tensor.isel_", ind=self.ln(ix))
+        if how == 3:
+            self.exp_labels[id(t)] = (tuple(i for i, d in zip(old, t.shape) if d > 1), tags)
+            self.run(lambda: t.squeeze_())
+            return dict(op="Tensor.squeeze_")
+        if len(old) < 2:
+            return None
+        # fuse two labels of the tensor into a fresh one: only in-domain when the tensor alone carries them
+        perm = [int(i) for i in self.rng.permutation(len(old))]
+        grp = [old[perm[0]], old[perm[1]]]
+        if any(g in x.inds for x in self.world_tensors() if x is not t for g in grp):
+            return None
+        name = self.fresh()
+        rest = [i for i in old if i not in grp]
+        self.exp_labels[id(t)] = (lambda new: set(new) == set(rest) | {name} and len(new) == len(rest) + 1
+                                  and [i for i in new if i != name] == rest, tags)
+        self.run(lambda: t.fuse_({name: grp}))
+        return dict(op="Tensor.fuse_", group=self.lns(grp))
+
+    def op_simplify(self):
+        A = self.pick_net(2)
+        if A is None:
+            return None
+        mem = list(A.members)
+        if any(has_rep(t) for t in mem):
+            return None
+        outer_before, occA = self.outer_set(mem)
+        hyper = any(c > 2 for c in occA.values())
+        inA = {id(t) for t in mem}
+        private = not any(id(t) not in inA and set(t.inds) & {ix for ix, c in occA.items() if c >= 2} for t in self.world_tensors())
+        how = self.ri(7)
+        wild_all = lambda: (self.exp_members.__setitem__(id(A), {"keep": [], "new": None}),  # noqa
+                            [self.exp_labels.__setitem__(id(t), (WILD, WILD)) for t in mem])
+        if how == 0:
+            if hyper:
+                return None
+            wild_all()
+            ok, _ = self.run(lambda: A.tn.rank_simplify_())
+            name = "rank_simplify_"
+        elif how == 1:
+            if hyper or not private:
+                return None
+            wild_all()
+            ok, _ = self.run(lambda: A.tn.full_simplify_("ADCRS"))
+            name = "full_simplify_"
+        elif how == 2:
+            if not hyper or len(mem) > 6:
+                return None
+            wild_all()
+            mode = self.choice(("dense", "mps", "tree"))
+            ok, _ = self.run(lambda: A.tn.hyperinds_resolve_(mode))
+            name = "hyperinds_resolve_:" + mode
+            if ok:
+                _, occ2 = self.outer_set(A.tn.tensor_map.values())
+                if any(c > 2 for c in occ2.values()):
+                    self.eff.append("hyperinds_resolve_ left a label on more than two tensors")
+        elif how in (3, 4):
+            # pairwise operations on the plain bond(s) between two tensors
+            pairs = [(a, b) for i, a in enumerate(mem) for b in mem[i + 1:]
+                     if sum(1 for ix in a.inds if ix in b.inds) == 1
+                     and all(occA[ix] == 2 for ix in a.inds if ix in b.inds)]
+            if not pairs or not private:
+                return None
+            a, b = self.choice(pairs)
+            ua, ub = self.unique_tags_for(A, a), self.unique_tags_for(A, b)
+            if ua is None or ub is None:
+                return None
+            for t in (a, b):
+                self.exp_labels[id(t)] = ((lambda new, old=tuple(t.inds): set(new) == set(old)), frozenset(t.tags))
+            if how == 3:
+                ok, _ = self.run(lambda: A.tn.canonize_between(ua, ub))
+                name = "canonize_between"
+            else:
+                ok, _ = self.run(lambda: A.tn.compress_between(ua, ub, max_bond=2))
+                name = "compress_between"
+        elif how == 5:
+            bonds = [ix for ix, c in occA.items() if c >= 2]
+            if not bonds or not private:
+                return None
+            for t in mem:
+                self.exp_labels[id(t)] = (tuple(t.inds), frozenset(t.tags))
+            ok, _ = self.run(lambda: A.tn.expand_bond_dimension_(4))
+            name = "expand_bond_dimension_"
+        else:
+            for t in mem:
+                self.exp_labels[id(t)] = (tuple(t.inds), frozenset(t.tags))
+            sub = self.ri(2)
+            if sub == 0:
+                ok, _ = self.run(lambda: A.tn.randomize_(seed=1))
+            else:
+                ok, _ = self.run(lambda: A.tn.astype_("complex128" if "complex" in self.dtype else "float64"))
+            name = ("randomize_", "astype_")[sub]
+        if ok and name == "full_simplify_":
+            # diagonal_reduce produces hyper labels by design (an output label may end up on two tensors): the
+            # occurrence-count classification may change, but no output label may disappear from the network
+            _, occ2 = self.outer_set(A.tn.tensor_map.values())
+            if not outer_before <= set(occ2):
+                self.eff.append(f"full_simplify_ removed output labels {self.lns(sorted(outer_before - set(occ2)))}")
+        elif ok:
+            self.post_outer_preserved(A, outer_before, name)
+        return dict(op=name)
+
     # ------------------------------------------------------------------ views, copies, partitions, pickling
     def op_view(self):
         if len(self.nets) >= self.MAX_NETS:
@@ -1436,7 +1575,7 @@ class Walker:
             name = f"select({which},virtual={v})"
         if ok:
             self.register(got, A.rep, spec, pre)
-        return dict(op=name)
+        return dict(op=name, cls=type(A.tn).__name__)
 
     def op_partition(self):
         if len(self.nets) + 2 > self.MAX_NETS:
@@ -1686,7 +1825,7 @@ class Walker:
 
 OPS = [("add", 10), ("pop", 7), ("setitem", 5), ("del", 4), ("reindex", 10), ("retag", 6), ("tensor_inds", 10),
        ("tensor_tags", 8), ("net_tags", 6), ("isel", 4), ("squeeze", 3), ("data", 3), ("split", 5), ("contract_tags", 5),
-       ("contract_ind", 5), ("gate", 5), ("fuse", 4), ("bonds", 4), ("view", 9), ("partition", 4), ("drop", 6),
+       ("contract_ind", 5), ("gate", 5), ("fuse", 4), ("bonds", 4), ("tensor_struct", 5), ("simplify", 5), ("view", 9), ("partition", 4), ("drop", 6),
        ("clear", 1), ("combine", 10)]
 _OPW = np.array([w for _, w in OPS], dtype=float)
 _OPW /= _OPW.sum()
@@ -1799,14 +1938,14 @@ def _histories(cx, n_quick, n_thorough, steps_quick, steps_thorough, kinds, repe
             cx.inconclusive.append(f"{cx.name}: time budget exhausted at history {h} of {n}")
             return
         base = dict(h=h, kind=kinds[h % len(kinds)], repeats=bool(repeats_every and h % repeats_every == repeats_every - 1),
-                    dtype=dts[(h // 3) % 4])
+                    dtype=dts[(h + h // 6) % 4])
         run_history(cx, qtn, base, steps)
         if h % 50 == 0:
             gc.collect()
 
 
 @driver("C02", "history-walker-random", chunks=8, timeout=300,
-        bound="random histories (quick 25 steps, thorough 120) over 23 operation families (add/pop/[]=/del/delete/reindex/retag/"
+        bound="random histories (quick 25 steps, thorough 120) over 25 operation families (add/pop/[]=/del/delete/reindex/retag/"
               "Tensor.modify|reindex_|transpose_|add_tag|drop_tags|retag_/add_tag|drop_tags/isel/squeeze/split_tensor/"
               "contract_tags|contract_|^=/contract_ind|contract_between/gate_inds (7 modes)/fuse_multibonds_/new_bond|cut_bond|"
               "mangle_inner_/copy|virtual copy|deep copy|pickle|select views/partition|partition_tensors/drop+gc/"
